@@ -212,6 +212,9 @@ impl Property for C09 {
     fn required_classes(&self) -> Vec<&'static str> {
         vec!["outcome:ok", "err:unexpected-eof", "err:unknown-token", "err:row-width", "err:number-parse", "gen:soup", "gen:mutated", "non-ascii", "kw:program-family"]
     }
+    fn check_raw(&self, _kind: &str, data: &[u8]) -> Option<(String, String)> {
+        crate::fuzzglue::parse_bytes_kv(data)
+    }
     fn fuzz_targets(&self) -> Vec<&'static str> {
         vec!["parse_bytes"]
     }
